@@ -146,10 +146,43 @@ def handleRot (fs : List (String × String)) : String := Id.run do
     idx := idx + 1
   return s!"{if agree then "agree" else "DISAGREE"} {match bad with | none => "ok" | some b => "BAD:" ++ b} nt={if steps.length ≥ 3*n then 1 else 0} br=rot{n} {String.intercalate ";" notes.reverse}"
 
+/-- two keyring calls issued at the same time: results and final ring must be those of one of the two
+sequential orders of the model (linearizability of a two-call history) -/
+def handleConc (fs : List (String × String)) : String := Id.run do
+  let some poolS := get fs "pool" | return "PARSE pool"
+  let some pool := (splitNE poolS ",").mapM hexBytes | return "PARSE poolhex"
+  let pool := pool.toArray
+  let some ring0 := parseRing pool (getD fs "ring0" "-") | return "PARSE ring0"
+  let some final := parseRing pool (getD fs "final" "-") | return "PARSE final"
+  let parseCall (x : String) : Option (Op × String) := match x.splitOn ":" with
+    | [kind, k, res] => do
+      let key ← parseKey pool k
+      let op ← match kind with
+        | "add" => some (Op.add key) | "use" => some (Op.use key) | "remove" => some (Op.remove key) | _ => none
+      pure (op, res)
+    | _ => none
+  let some (opA, resA) := parseCall (getD fs "a" "") | return "PARSE a"
+  let some (opB, resB) := parseCall (getD fs "b" "") | return "PARSE b"
+  let seqRun (first second : Op) : (String × String × List Key) :=
+    let (r1, e1) := step ring0 first
+    let (r2, e2) := step r1 second
+    (errName e1, errName e2, r2)
+  let (a1, b1, f1) := seqRun opA opB
+  let (b2, a2, f2) := seqRun opB opA
+  let okAB := a1 == resA && b1 == resB && f1 == final
+  let okBA := a2 == resA && b2 == resB && f2 == final
+  let ok := okAB || okBA
+  let bad : Option String :=
+    if resA == "panic" || resB == "panic" then some "panic"
+    else if !ok then some s!"concurrent-calls-match-no-sequential-order:a={getD fs "a" ""},b={getD fs "b" ""},final={getD fs "final" ""}"
+    else none
+  return s!"{if ok then "agree" else "DISAGREE"} {match bad with | none => "ok" | some b => "BAD:" ++ b} nt=1 br=conc-{if okAB && okBA then "both" else if okAB then "ab" else "ba"} "
+
 def handle (kind : String) (fs : List (String × String)) : String :=
   match kind with
   | "seq" => handleSeq fs
   | "rot" => handleRot fs
+  | "conc" => handleConc fs
   | _ => "PARSE kind"
 
 end Swim.Drv.C17
